@@ -69,6 +69,36 @@ func corruptFrame(rc *RunCtx, valid []byte, streamEntry bool) ([]byte, string) {
 		proto, _ := rc.Sample["protocol"].(string)
 		return giantRequest(proto, n), fmt.Sprintf("well-framed request for an unknown method with a %d-byte name", n)
 	}
+	if proto, _ := rc.Sample["wireproto"].(string); proto == "json" && tp.Intn("jsonsize", 5) == 0 {
+		// JSON carries numbers of any size: a container that announces more elements than an int32 can hold (the
+		// binary and compact encodings cannot even say that). Behind a valid envelope, in a field of the type the
+		// receiver expects there, so that the generated reader - not a skip - meets it
+		if f, err := DecodeFrame(b); err == nil {
+			n := []string{"4611686018427387904", "9223372032559808512", "4611686022722355200"}[tp.Intn("jsonsize", 3)]
+			entry, _ := rc.Sample["entry"].(string)
+			var body string
+			switch {
+			case strings.HasSuffix(entry, "-subscriber"):
+				body = []string{
+					`[1,"ItemCreated",1,0,{"4":{"map":["str","lst",1,{"k":["i32",` + n + `]}]}}]`,
+					`[1,"ItemCreated",1,0,{"7":{"set":["str",` + n + `]}}]`,
+					`[1,"ItemCreated",1,0,{"4":{"map":["str","lst",` + n + `,{}]}}]`,
+				}[tp.Intn("jsonsize", 3)]
+			case strings.HasSuffix(entry, "-server"):
+				body = []string{
+					`[1,"mixed",1,0,{"1":{"rec":{"1":{"str":"x"},"2":{"lst":["tf",` + n + `]}}}}]`,
+					`[1,"shapes",1,0,{"9":{"lst":["str",` + n + `]}}]`,
+					`[1,"shapes",1,0,{"10":{"map":["i32","str",` + n + `,{}]}}]`,
+					`[1,"echoItem",1,0,{"1":{"rec":{"7":{"set":["str",` + n + `]}}}}]`,
+				}[tp.Intn("jsonsize", 4)]
+			default:
+				// (the client side of this harness calls add, whose result holds no container: the skip path)
+				body = `[1,"add",2,0,{"0":{"lst":["i32",` + n + `]}}]`
+			}
+			rc.Fault("json-container-size-beyond-int32")
+			return EncodeFrame(f.Headers, []byte(body)), "valid envelope, JSON body " + body
+		}
+	}
 	if k := tp.Intn("corrupt2", 9); k == 1 || k == 2 {
 		// a well-formed frame whose routing headers are not what a peer would send
 		if f, err := DecodeFrame(b); err == nil {
@@ -279,6 +309,7 @@ func corruptHarness(rc *RunCtx) {
 	}
 	proto := []string{"binary", "compact", "json"}[tp.Intn("cfg", 3)]
 	rc.Sample["entry"], rc.Sample["protocol"] = entry, proto
+	rc.Sample["wireproto"] = proto
 	rc.Nontrivial = true
 	if strings.HasSuffix(entry, "subscriber") {
 		corruptSubscriber(rc, s, entry, proto)
@@ -290,6 +321,7 @@ func corruptHarness(rc *RunCtx) {
 		env.kind = "adapter"
 		if proto == "json" {
 			env.proto = "binary" // D9
+			rc.Sample["wireproto"] = "binary"
 		}
 	case strings.HasPrefix(entry, "nats"):
 		env.kind = "nats"
